@@ -20,34 +20,48 @@ def proj_cell(v, ids):
     return tag(v, ids)
 
 
+def enc_label(c):
+    """a column label as a JSON string: a str as itself, any other object as '#<tag>:<payload>' (Regroup!LabelEnc)"""
+    if isinstance(c, str):
+        return c
+    t = tag(c)
+    if t[0] in ('n', 'nan'): return '#' + t[0]
+    if t[0] == 'f': return '#f:%d/%d' % tuple(t[1])
+    if t[0] == 'd': return '#d:%d:%d:%d' % tuple(t[1])
+    return '#%s:%s' % (t[0], t[1])
+
+
 def proj(d, ids):
     cols = list(dict.keys(d))
     lists = {c: list(dict.__getitem__(d, c)) for c in cols}
     n = len(d)
-    return {"cols": [str(c) for c in cols], "rows": [{str(c): proj_cell(lists[c][i], ids) for c in cols} for i in range(n)]}
+    return {"cols": [enc_label(c) for c in cols], "rows": [{enc_label(c): proj_cell(lists[c][i], ids) for c in cols} for i in range(n)]}
 
 
-def spell(by, k):
-    """the spellings of *by: names, a list, a tuple"""
-    return [tuple(by), (list(by),)][k % 2]
+FORMS = ['names', 'list']
 
 
-def obs_listby(t, by, k, again=None):
+def spell(by, form):
+    """the spellings of *by: the names one by one, or one list of names"""
+    return tuple(by) if form == 'names' else (list(by),)
+
+
+def obs_listby(t, by, form, again=None, k=0, idcol='p'):
     """again = a column of new key cells: the table is regrouped once, its first key column is re-assigned in place
     (same length) and the regrouping that is recorded is the one after that (judged against the edited table)"""
     ids = IdMap(); d = table_from(t, ids)
     if again is not None and t['rows']:
         try:
-            d.listby(*spell(by, k)); d.groupby(*spell(by, k)) if len(by) < len(t['cols']) else None
+            d.listby(*spell(by, form)); d.groupby(*spell(by, form)) if len(by) < len(t['cols']) else None
         except Exception:
             pass
         col = by[0]
         if k % 2: d[col] = [untag(v, ids) for v in again]
         else: setattr(d, col, [untag(v, ids) for v in again])
         t = {'cols': t['cols'], 'rows': [dict(r, **{col: v}) for r, v in zip(t['rows'], again)]}
-    o = {'op': 'listby', 't': t, 'by': by, 'raised': '', 'out': {'cols': [], 'rows': []}, 'unl': {'cols': [], 'rows': []}, 'colcmp': [], 'after': {}}
+    o = {'op': 'listby', 't': t, 'by': by, 'form': form, 'idcol': idcol, 'raised': '', 'out': {'cols': [], 'rows': []}, 'unl': {'cols': [], 'rows': []}, 'colcmp': [], 'after': {}}
     try:
-        res = d.listby(*spell(by, k))
+        res = d.listby(*spell(by, form))
         o['out'] = proj(res, ids)
         unl = res.unlist()
         o['unl'] = proj(unl, ids)
@@ -58,32 +72,27 @@ def obs_listby(t, by, k, again=None):
     return o
 
 
-def obs_groupby(t, by, k):
+def obs_groupby(t, by, form, grp='grp'):
+    """grp = the name asked for the sub-table column ('grp' = the default: the argument is left out)"""
     ids = IdMap(); d = table_from(t, ids)
-    o = {'op': 'groupby', 't': t, 'by': by, 'raised': '', 'out': {'cols': [], 'rows': []}, 'ung': {'cols': [], 'rows': []}, 'ung2': True, 'after': {}}
+    o = {'op': 'groupby', 't': t, 'by': by, 'form': form, 'grp': grp, 'raised': '', 'out': {'cols': [], 'rows': []}, 'ung': {'cols': [], 'rows': []}, 'ung2': True, 'after': {}}
     try:
-        name = ['grp', 'rows', 'sub'][k % 3]
-        if name in t['cols']:
-            name = 'grp'
-        res = d.groupby(*spell(by, k)) if name == 'grp' else d.groupby(*spell(by, k), grp=name)
-        out = proj(res, ids)
-        if name != 'grp':          # the group column must carry the name that was asked for
-            out = {'cols': ['grp' if c == name else ('?' + c if c == 'grp' else c) for c in out['cols']],
-                   'rows': [{('grp' if c == name else ('?' + c if c == 'grp' else c)): v for c, v in r.items()} for r in out['rows']]}
-        o['out'] = out
-        o['ung'] = proj(res.ungroup() if name == 'grp' else res.ungroup(name), ids)
-        o['ung2'] = proj(res.ungroup() if name == 'grp' else res.ungroup(grp=name), ids) == o['ung']     # a second ungroup of the same grouped table
+        res = d.groupby(*spell(by, form)) if grp == 'grp' else d.groupby(*spell(by, form), grp=grp)
+        o['out'] = proj(res, ids)
+        o['ung'] = proj(res.ungroup() if grp == 'grp' else res.ungroup(grp), ids)
+        o['ung2'] = proj(res.ungroup() if grp == 'grp' else res.ungroup(grp=grp), ids) == o['ung']     # a second ungroup of the same grouped table
     except Exception as e:
         o['raised'] = type(e).__name__
     o['after'] = proj_table(d, ids)
     return o
 
 
-def obs_pivot(t, x, y, z, agg, k):
+def obs_pivot(t, x, form, y, z, agg, k=0):
+    """form = how x is passed to pivot and to unpivot: 'name' (the single column name) or 'list'"""
     ids = IdMap(); d = table_from(t, ids)
-    o = {'op': 'pivot', 't': t, 'x': x, 'y': y, 'z': z, 'agg': agg, 'raised': '', 'out': {'cols': [], 'rows': []}, 'unp': {'cols': [], 'rows': []}, 'after': {}}
+    o = {'op': 'pivot', 't': t, 'x': x, 'form': form, 'y': y, 'z': z, 'agg': agg, 'raised': '', 'out': {'cols': [], 'rows': []}, 'unp': {'cols': [], 'rows': []}, 'after': {}}
     try:
-        xa = x[0] if (len(x) == 1 and k % 2) else list(x)
+        xa = x[0] if form == 'name' else list(x)
         res = (d.pivot if k % 3 else d.xyz)(xa, y, z, AGG[agg])
         o['out'] = proj(res, ids)
         if agg == 'last':
@@ -97,21 +106,46 @@ def obs_pivot(t, x, y, z, agg, k):
 
 
 YU = [["s", "u"], ["s", "v"], ["s", "w w"], ["i", 1], ["i", 2], ["i", 30]]
+# y values of other types (they label their column as themselves) and names that contain / are contained in each other
+YOTHER = [["f", [3, 2]], ["f", [1, 1]], ["n", 0], ["d", [730120, 0, 0]], ["nan", 1], ["inf", 1], ["s", ""]]
+NAMEPOOL = ['a', 'b', 'c', 'p', 'y', 'z', 'name', 'me', 'n', 'am', 'na', 'nam', 'date', 'at', 'd', 'x y', 'x', 'ab', 'ba', 'abc', 'A', 'Aa', '',
+            'grp', 'value', 'val', '1', '0', '10', 'key', 'ke y', 'k', 'rows']
+ROLES = ['a', 'b', 'c', 'p', 'y', 'z', 'grp']
+KNOWN_NAN_LABELS = 'C11-pivot-nan-labels-of-two-objects'
 
 
-def pivot_table(rng, keyrows, sub):
-    """x keys from TLC's / the random key cells, y labels from strings and ints, z anything"""
+def pivot_table(rng, keyrows, sub, ypool=YU):
+    """x keys from TLC's / the random key cells, y labels from ypool, z anything"""
     rows = []
     for i, r in enumerate(keyrows):
-        rows.append({'a': r['a'], 'b': r['b'], 'y': rng.choice(YU[:rng.choice([1, 2, 3, 6])]), 'z': rng.choice(sub + [["i", 100 + i]]), 'p': ["i", i + 1]})
+        rows.append({'a': r['a'], 'b': r['b'], 'y': rng.choice(ypool[:rng.choice([1, 2, 3, len(ypool)])]), 'z': rng.choice(sub + [["i", 100 + i]]), 'p': ["i", i + 1]})
     return {'cols': ['a', 'b', 'y', 'z', 'p'], 'rows': rows}
+
+
+def renamed(t, m):
+    """the table with its role names replaced by the names of the naming m"""
+    return {'cols': [m[c] for c in t['cols']], 'rows': [{m[c]: v for c, v in r.items()} for r in t['rows']]}
+
+
+def nan_objects(t, y):
+    n = len({tuple(r[y]) for r in t['rows'] if r[y][0] == 'nan'})
+    return ['none', 'one', 'several'][min(n, 2)]
 
 
 def run(ctx):
     ctx.rule = ('TLC enumerates tables (<= 2-3 rows, key cells None/1/1.0/2/"s"/date/two NaN objects, unique id column) x key choices; '
-                'each is pushed through listby+unlist, groupby+ungroup and (decorated with y/z columns) pivot+unpivot in rotating spellings; '
-                'random tables up to 20 rows likewise. Trace_Regroup judges every observation. Non-trivial = some key class has more than one row.')
+                'each is pushed through listby+unlist, groupby+ungroup and (decorated with y/z columns) pivot+unpivot in rotating spellings. '
+                'MC_RegroupN: TLC also enumerates the NAMES: 8 namings of the columns (names inside / containing / equal-but-for-case to each other, '
+                'digits, spaces, a column called grp, columns inserted in reverse), the id column as a key, the name of the sub-table column, the '
+                'spelling of the keys (names / one list; pivot: one name / a list) and for pivot the y universe of each naming (labels that are '
+                'substrings / prefixes / super-strings of the x name, equal to the y, z or another column name, "", ints, floats, None, a datetime, '
+                'NaN, inf); random tables up to 20 rows likewise under random namings. Trace_Regroup judges every observation. '
+                'Non-trivial = some key class has more than one row / a label that occurs in a column name or is not a string.')
     ctx.mc('MC_Regroup', 'MC_Regroup_quick.cfg' if ctx.quick else 'MC_Regroup_thorough.cfg')
+    if not ctx.quick:       # quick: the laws of MC_RegroupN are invariants of its generator run below
+        ctx.mc('MC_RegroupN', 'MC_RegroupN_thorough.cfg')
+        # the mechanism "col not in x" (substring test for a single name) must be rejected by the unpivot law
+        ctx.mc('MC_RegroupN', 'MC_RegroupN_sub.cfg', must_fail='SubLaw')
     obs = []
     rng = ctx.rng
     gens = [('MC_Regroup_gen2.cfg', 3000)] if ctx.quick else [('MC_Regroup_gen2w.cfg', 40000), ('MC_Regroup_gen3.cfg', 30000)]
@@ -121,51 +155,95 @@ def run(ctx):
             cases = rng.sample(cases, cap)
         for k, c in enumerate(cases):
             t, by = c['t'], c['by']
-            obs.append(obs_listby(t, by, k))
-            obs.append(obs_groupby(t, by, k))
+            form = FORMS[k % 2]
+            grp = ['grp', 'rows', 'sub'][k % 3]
+            obs.append(obs_listby(t, by, form))
+            obs.append(obs_groupby(t, by, form, grp))
             if k % 3 == 0 and t['rows']:
                 vals = [r[by[0]] for r in t['rows']]
-                obs.append(obs_listby(t, by, k, again=[vals[0]] * len(vals) if k % 2 else list(reversed(vals))))
+                obs.append(obs_listby(t, by, form, again=[vals[0]] * len(vals) if k % 2 else list(reversed(vals)), k=k))
             if k % 2 == 0:
                 sub = [r['a'] for r in t['rows']] + [["n", 0]]
                 pt = pivot_table(rng, t['rows'], sub)
-                obs.append(obs_pivot(pt, by, 'y', 'z', ['last', 'list', 'len', 'first', 'last'][k % 5], k))
+                obs.append(obs_pivot(pt, by, 'name' if (len(by) == 1 and k % 4 == 0) else 'list', 'y', 'z', ['last', 'list', 'len', 'first', 'last'][k % 5], k))
             if 0 < c['nclasses'] < len(t['rows']):
                 ctx.note(('tlc', json.dumps([t, by])))
         ctx.sample({'tlc_case': cases[len(cases) // 2]})
+    # ---- the names of things: column names, labels, spellings - all from TLC (MC_RegroupN)
+    ngens = ([('MC_RegroupN_genq.cfg', 6000)] if ctx.quick else
+             [('MC_RegroupN_genk3.cfg', 20000), ('MC_RegroupN_genpr.cfg', 30000), ('MC_RegroupN_genp3.cfg', 30000)])
+    for g, cap in ngens:
+        cases = ctx.generate('MC_RegroupN', g)
+        if len(cases) > cap:
+            cases = rng.sample(cases, cap)
+        for k, c in enumerate(cases):
+            if c['op'] == 'regroup':
+                obs.append(obs_listby(c['t'], c['by'], c['form'], idcol=c['idcol']))
+                obs.append(obs_groupby(c['t'], c['by'], c['form'], c['grp']))
+                if k % 4 == 0 and c['t']['rows']:
+                    vals = [r[c['by'][0]] for r in c['t']['rows']]
+                    obs.append(obs_listby(c['t'], c['by'], c['form'], again=list(reversed(vals)), k=k, idcol=c['idcol']))
+                if len(c['t']['rows']) > 1:
+                    ctx.note(('names', c['nm'], json.dumps(c['by'])))
+            else:
+                obs.append(obs_pivot(c['t'], c['x'], c['form'], c['y'], c['z'], c['agg'], k))
+                labels = [r[c['y']] for r in c['t']['rows']]
+                if any(l[0] != 's' or any(l[1] in n or n in l[1] for n in c['t']['cols']) for l in labels):
+                    ctx.note(('labels', c['nm'], c['form'], json.dumps(sorted(map(json.dumps, labels)))))
+        ctx.sample({'tlc_named_case': cases[len(cases) // 2]})
+    # ---- random tables, half of them under a random naming
     pool = [["n", 0], ["i", 1], ["i", 2], ["i", 3], ["f", [1, 1]], ["f", [2, 1]], ["f", [5, 2]], ["nan", 1], ["nan", 2], ["nan", 3],
             ["s", "s"], ["s", "t"], ["s", ""], ["d", [730120, 0, 0]], ["d", [730121, 0, 0]], ["inf", 1], ["inf", -1]]
+    two_nans = any(k.get('id') == KNOWN_NAN_LABELS for k in ctx.known)      # reported defect: generated once it is on record
     for i in range(300 if ctx.quick else 6000):
         sub = rng.sample(pool, rng.choice([2, 3, 4, 6, len(pool)]))
         n = rng.choice([0, 1, 2, 3, 5, 9, 14, 20])
+        m = dict(zip(ROLES, rng.sample(NAMEPOOL, len(ROLES)))) if i % 2 else {r: r for r in ROLES}
+        if m['grp'] == 'a': m['grp'] = 'grp'
         keyrows = [{'a': rng.choice(sub), 'b': rng.choice(sub)} for _ in range(n)]
-        t = {'cols': ['a', 'b', 'c', 'p'], 'rows': [dict(r, c=rng.choice(sub), p=["i", j + 1]) for j, r in enumerate(keyrows)]}
-        by = rng.choice([['a'], ['b'], ['a', 'b'], ['b', 'a'], ['c', 'a'], ['a', 'b', 'c']])
-        obs.append(obs_listby(t, by, i))
-        obs.append(obs_groupby(t, by, i))
+        t = renamed({'cols': ['a', 'b', 'c', 'p'], 'rows': [dict(r, c=rng.choice(sub), p=["i", j + 1]) for j, r in enumerate(keyrows)]}, m)
+        by = [m[c] for c in rng.choice([['a'], ['b'], ['a', 'b'], ['b', 'a'], ['c', 'a'], ['a', 'b', 'c']])]
+        form = FORMS[(i // 2) % 2]
+        grp = m['grp'] if (m['grp'] not in t['cols'] or m['grp'] == 'grp' and 'grp' not in by) else 'grp'
+        if grp in by: grp = 'sub'
+        obs.append(obs_listby(t, by, form, idcol=m['p']))
+        obs.append(obs_groupby(t, by, form, grp))
         if n:
-            obs.append(obs_listby(t, by, i, again=[rng.choice(sub) for _ in range(n)]))
-        pt = pivot_table(rng, keyrows, sub)
-        obs.append(obs_pivot(pt, rng.choice([['a'], ['b'], ['a', 'b']]), 'y', 'z', rng.choice(['last', 'list', 'len', 'first', 'last']), i))
+            obs.append(obs_listby(t, by, form, again=[rng.choice(sub) for _ in range(n)], k=i, idcol=m['p']))
+        x = rng.choice([['a'], ['b'], ['a', 'b']])
+        ypool = YU if i % 4 < 2 else ([["s", s] for s in rng.sample([v for v in NAMEPOOL if v not in (m['a'], m['b'])], 3)] + rng.sample(YOTHER, 3) + [["i", 2]]
+                                       + ([["nan", 2]] if two_nans else []))
+        pt = renamed(pivot_table(rng, keyrows, sub, ypool), m)
+        obs.append(obs_pivot(pt, [m[c] for c in x], 'name' if (len(x) == 1 and i % 3) else 'list', m['y'], m['z'], rng.choice(['last', 'list', 'len', 'first', 'last']), i))
         ctx.note(('rand', i))
     ctx.evals += len(obs)
     bad = ctx.validate('Trace_Regroup', obs)
     for line, clause in bad:
         o = obs[line - 1]
-        case = {k: o[k] for k in ('op', 't', 'by', 'x', 'y', 'z', 'agg') if k in o}
+        case = {k: o[k] for k in ('op', 't', 'by', 'form', 'idcol', 'grp', 'x', 'y', 'z', 'agg') if k in o}
+        if o['op'] == 'pivot':
+            case['y_nan_objects'] = nan_objects(o['t'], o['y'])
         ctx.violation(clause, case, {k: o[k] for k in ('out', 'unl', 'ung', 'unp', 'colcmp', 'raised', 'after') if k in o})
     ctx.sample({'observation': obs[1]})
+    ctx.sample({'observation_pivot': next(o for o in reversed(obs) if o['op'] == 'pivot')})
     ctx.exhaustive = False
     ctx.assumptions += ['key cells of results are compared with the key equality of the statement (a class shows one representative, 1 or 1.0)',
-                        'pivot: y values are strings or ints (rendered as decimal labels); the unpivot clause is checked on tables with unique (x, y) and non-None z',
+                        'pivot: a str y value is its own column label, an int its decimal string, any other scalar (None, float, datetime, NaN, inf) labels its column '
+                        'as itself (named deviation LabelItself); y values that are equal as keys (1 and 1.0) share one column that shows one member\'s label',
+                        'pivot: outside the domain (a table has one column per name): a label equal to the name of an x column, two different y values '
+                        'with one rendering (1 and "1"), a sub-table column named like a key column; several distinct NaN objects among the y values only once '
+                        'the reported defect %s is on record' % KNOWN_NAN_LABELS,
+                        'the unpivot clause is checked on tables with unique (x, y) cells; rows with None z are the ones dropped',
+                        'key arguments are spelled as separate names or one list (listby/groupby), one name or a list (pivot/unpivot x); tuples are not a '
+                        'spelling of several keys in dictable (a tuple is one composite key) and y / z are always single names',
                         'row order of listby/groupby/pivot results is not pinned; unlist must be sorted under the real cmp, stable and contiguous']
 
 
 def replay(ctx, body):
     c = body['case']
-    if c['op'] == 'listby': o = obs_listby(c['t'], c['by'], 0)
-    elif c['op'] == 'groupby': o = obs_groupby(c['t'], c['by'], 0)
-    else: o = obs_pivot(c['t'], c['x'], c['y'], c['z'], c['agg'], 0)
+    if c['op'] == 'listby': o = obs_listby(c['t'], c['by'], c.get('form', 'names'), idcol=c.get('idcol', 'p'))
+    elif c['op'] == 'groupby': o = obs_groupby(c['t'], c['by'], c.get('form', 'names'), c.get('grp', 'grp'))
+    else: o = obs_pivot(c['t'], c['x'], c.get('form', 'list'), c['y'], c['z'], c['agg'], 0)
     bad = ctx.validate('Trace_Regroup', [o])
     print('replay:', 'REJECTED %s' % bad if bad else 'accepted')
     return 1 if bad else 0
